@@ -497,6 +497,24 @@ theorem rack_delivered (ρ : TopicMap → TopicMap) (hρ : ∀ l, (ρ l).Perm l)
     (fun t => ⟨rack_cover ms ps σ₁ σ₂ h t (h1 t) (h2 t), rack_balanced ms ps σ₁ σ₂ h t (h1 t) (h2 t)⟩)
     (fun t => rack_only_subscribers ms ps σ₁ σ₂ h t (h1 t) (h2 t)) t ht
 
+/-- the last step on the member: `Generation.Assignments` (built by `makeAssignments` from the member's own topic
+list) is exactly what was delivered to it — the only thing `makeAssignments` can drop is a topic the member does not
+subscribe to, and by only-subscribers nothing of such a topic was delivered -/
+theorem generation_view_is_delivered (ρ : TopicMap → TopicMap) (ms : List Member) (a : Asg) (ids ts : List Nat)
+    (h : WellFormed ms) (ho : ∀ t id, OnlySubscribersAt ms (delivered ρ a ids ts) t id) (m : Member) (hm : m ∈ ms) (t : Nat) :
+    generationView ρ (mapOf a ids ts) m.id m.topics t = delivered ρ a ids ts t m.id := by
+  rw [generationView_eq]
+  by_cases ht : t ∈ m.topics
+  · simp [ht, delivered]
+  · simp only [ht, if_false]
+    symm
+    apply ho t m.id
+    intro m' hm' e
+    have hm'' := List.mem_filter.mp hm'
+    have : m' = m := eq_of_id_eq ms (wf_split h) m' hm''.1 m hm e
+    subst this
+    exact ht (by simpa using hm''.2)
+
 /-- the leader asks the cluster for exactly the topics somebody subscribes to (`extractTopics`), so for every subscribed
 topic the balancer is given exactly the cluster's partitions of that topic (`ReadsTopics` = what `readPartitions` returns) -/
 theorem glue_partitions (ms : List Member) (cluster got : List Part) (hread : ReadsTopics cluster (extractTopics ms) got)
